@@ -1,6 +1,7 @@
 package core
 
 import (
+	"go/token"
 	"strings"
 
 	"golang.org/x/tools/go/ssa"
@@ -569,4 +570,49 @@ func (p *Prog) localClosure(h *ssa.Function) bool {
 		n++
 	}
 	return n > 0
+}
+
+// FlatFieldAddr decodes the address of a struct field like AsFieldAddr and
+// folds by-value nesting: the address of field g of a struct that is itself
+// stored by value in field f of T — written t.f.g, or reached through the
+// receiver or parameter of a private helper that is handed &t.f — is reported
+// as field "f.g" of T with t as base.
+func (p *Prog) FlatFieldAddr(v ssa.Value) (FieldRef, bool) {
+	fr, ok := AsFieldAddr(v)
+	if !ok {
+		return fr, false
+	}
+	for i := 0; i < 3; i++ {
+		outer, ok := p.Bind(Strip(fr.Base)).(*ssa.FieldAddr)
+		if !ok {
+			break
+		}
+		o, ok := AsFieldAddr(outer)
+		if !ok {
+			break
+		}
+		fr = FieldRef{Owner: o.Owner, Field: o.Field + "." + fr.Field, Base: o.Base}
+	}
+	return fr, true
+}
+
+// FlatFieldLoad is AsFieldLoad with the nesting folded as in FlatFieldAddr.
+func (p *Prog) FlatFieldLoad(v ssa.Value) (FieldRef, bool) {
+	switch x := v.(type) {
+	case *ssa.UnOp:
+		if x.Op == token.MUL {
+			return p.FlatFieldAddr(x.X)
+		}
+	case *ssa.Field:
+		fr, ok := AsFieldLoad(v)
+		if !ok {
+			return fr, false
+		}
+		// t.f.g read out of a loaded copy of t.f
+		if in, ok := p.FlatFieldLoad(x.X); ok {
+			return FieldRef{Owner: in.Owner, Field: in.Field + "." + fr.Field, Base: in.Base}, true
+		}
+		return fr, true
+	}
+	return AsFieldLoad(v)
 }
